@@ -30,8 +30,16 @@ def build(tier: str) -> List[Cond]:
                         if none_size and npos != 1:
                             continue
                         hi = L + 1 if kind in ("permutations", "combinations") else L
-                        sym = [("size", "int")] + [(f"p{i}", "int") for i in range(npos)]
+                        sym = [("size", "int")] + [(f"p{i}", "int") for i in range(npos)] + ([("nt", "bool"), ("ct", "bool")] if glob and L <= 2 else [])
                         pre = [f"1 <= size <= {hi}"] + [f"0 <= p{i} < {L}" for i in range(npos)]
+                        if glob and L > 2 and not none_size:
+                            # terminal modifications independently present (case split for the longer sequences)
+                            for (nt_, ct_) in ((True, False), (False, True)):
+                                conds.append(Cond(oid=f"{kind}/{seq}/mods={npos}/glob=1/nt={int(nt_)}/ct={int(ct_)}",
+                                                  clause="results = the standard enumeration over modified residues wrapped in the unchanged annotations (only one terminus modified)",
+                                                  module="vf.h.c19", func="o_comb", shape=dict(kind=kind, seq=seq, npos=npos, glob=True, none_size=False, nt=nt_, ct=ct_),
+                                                  sym=[("size", "int")] + [(f"p{i}", "int") for i in range(npos)], pre=pre, timeout=t, functions=FUNCS,
+                                                  bounds=f"len {L}; size symbolic; exactly one terminus modified"))
                         conds.append(Cond(oid=f"{kind}/{seq}/mods={npos}/glob={int(glob)}/size={'None' if none_size else 'sym'}",
                                           clause="results = the standard enumeration over residues with their own modifications, in order, wrapped in the unchanged global/labile/terminal annotations; counts; every result parses",
                                           module="vf.h.c19", func="o_comb", shape=dict(kind=kind, seq=seq, npos=npos, glob=glob, none_size=none_size),
